@@ -191,4 +191,42 @@ theorem mem_pairCols {lo colMax c : Nat} (h : c ∈ pairCols lo colMax) : lo ≤
   simp only [List.mem_filter, List.mem_range, Bool.and_eq_true, decide_eq_true_eq] at h
   exact ⟨h.2.1.1, h.2.1.2, h.2.2⟩
 
+theorem extract1blk_inb' {len : Nat → Nat} (m rows blk : Nat) (d s : Nat × Nat)
+    (hs : rows = 0 ∨ s.2 + 4 * blk + (2 * rows - 1) * (4 * (m / 4)) + 4 ≤ len s.1) (hd : d.2 + 8 * rows ≤ len d.1) :
+    InBounds len (extract1blk m rows blk d s) := by
+  rcases hs with h | h
+  · subst h; unfold extract1blk; simp; exact inb_nil _
+  · exact extract1blk_inb m rows blk d s h hd
+
+/-- `blk`-th block of the prepared matrix: `blk·(8·nrows·ncols) + x` stays inside `2m·nrows·ncols` when `x` fits one block -/
+theorem pm_fit {m blk nrows ncols x : Nat} (hm : m % 4 = 0) (hb : blk < m / 4) (hx : x ≤ 8 * nrows * ncols) :
+    blk * (8 * nrows * ncols) + x ≤ 2 * m * nrows * ncols := by
+  have k := blk_fit (blk := blk) (q := m / 4) (Q := 8 * nrows * ncols) (x := x) hb hx
+  have e : m / 4 * (8 * nrows * ncols) = 2 * m * nrows * ncols := by
+    calc m / 4 * (8 * nrows * ncols) = (m / 4 * 8) * (nrows * ncols) := by
+          rw [Nat.mul_assoc 8 nrows ncols, ← Nat.mul_assoc]
+      _ = 2 * m * (nrows * ncols) := by rw [show m / 4 * 8 = 2 * m by omega]
+      _ = 2 * m * nrows * ncols := by rw [Nat.mul_assoc (2 * m) nrows ncols]
+  omega
+
+/-- columns `c .. c+k` of one block: `c·(8·nrows) + y ≤ 8·nrows·ncols` when `c + k ≤ ncols` and `y` fits `k` columns -/
+theorem col_ext {c k ncols nrows y : Nat} (hc : c + k ≤ ncols) (hy : y ≤ k * (8 * nrows)) : c * (8 * nrows) + y ≤ 8 * nrows * ncols := by
+  have h1 := col_fit (c := c) (k := k) (C := ncols) (R := 8 * nrows) hc
+  have e : ncols * (8 * nrows) = 8 * nrows * ncols := Nat.mul_comm _ _
+  omega
+
+theorem rows_fit {rowMax m aSize : Nat} (h1 : 1 ≤ rowMax) (hr : rowMax ≤ aSize) : (2 * rowMax - 1) * m + m ≤ 2 * m * aSize := by
+  have e : (2 * rowMax - 1) * m + m = (2 * rowMax) * m := by
+    have : (2 * rowMax - 1 + 1) * m = (2 * rowMax) * m := by rw [show 2 * rowMax - 1 + 1 = 2 * rowMax by omega]
+    rw [Nat.add_mul, Nat.one_mul] at this; exact this
+  have k : rowMax * m ≤ aSize * m := Nat.mul_le_mul_right _ hr
+  calc (2 * rowMax - 1) * m + m = 2 * rowMax * m := e
+    _ = 2 * (rowMax * m) := Nat.mul_assoc _ _ _
+    _ ≤ 2 * (aSize * m) := Nat.mul_le_mul_left _ k
+    _ = 2 * m * aSize := by rw [Nat.mul_comm aSize m, Nat.mul_assoc]
+
+theorem limb_fit {j k n S : Nat} (h : j + k ≤ S) : j * n + k * n ≤ n * S := by
+  have := col_fit (c := j) (k := k) (C := S) (R := n) h
+  rw [Nat.mul_comm n S]; exact this
+
 end Kern
